@@ -90,7 +90,7 @@ ASSUMPTIONS = ["list-valued pre-grouping attributes may be given as lists or tup
                "what the caller does to its own objects between two calls (in-place edits, mutated results) reaches the model as the resulting "
                "template list (OTemplates); the model functions are pure, so every call equals its fresh evaluation by construction"]
 TESTED_NOT_PROVED = []
-LEVEL_TEXT = ("Machine-checked proof (Coq, 28 theorems in coq/props/C13.v, all closed under the global context). Generic part, for every list "
+LEVEL_TEXT = ("Machine-checked proof (Coq, 30 theorems in coq/props/C13.v, all closed under the global context). Generic part, for every list "
               "of items and every decidable test `iso` that is an equivalence, with an iso-invariant pre-grouping attribute as the code reads "
               "it: GraphCluster.iterative_cluster / fit (visited set, comparison with the first member only, attribute pre-filter) gives every "
               "item exactly one class and two items share a class IFF iso (C13_partition; clusters list = rule_to_cluster, a partition of the "
@@ -107,7 +107,8 @@ LEVEL_TEXT = ("Machine-checked proof (Coq, 28 theorems in coq/props/C13.v, all c
               "Round 5: the correspondence evaluates TRACED loops (model/C13_Trace.v) on items given as raw attribute dictionaries and compares, "
               "after every call, classes, template list AND the sequence of isomorphism tests (pairs handed to graph_isomorphism, in call order): "
               "C13_trace_projection (traced = untraced results), C13_lib_check_trace (exactly the same-attribute templates up to the first "
-              "isomorphic one), C13_gc_trace (earlier vs later position with equal attribute, no pair twice, <= n(n-1)/2 tests), "
+              "isomorphic one), C13_gc_trace_exact (the EXACT test sequence as a function of the returned clusters: every cluster's first member against "
+              "every later position of equal attribute that is in no earlier cluster), C13_gc_trace (no pair twice, <= n(n-1)/2 tests), "
               "C13_raw_matchers (attribute selection), C13_ctor_contract (constructor contract of both classes), C13_stepx_state, "
               "C13_graph_isomorphism_options (None matchers / use_defaults of graph_morphism.graph_isomorphism). "
               "Model and code are compared after every call on every run.")
@@ -692,8 +693,6 @@ def _in_domain(case):
                 return False
             if k in ("gc_iter", "gc_fit", "cluster", "fit") and not op[1]:
                 return False
-            if k in ("fit", "batch_dicts") and op[2] is not None and op[2] < 1 and "expect" not in _flags(op):
-                return False
             ix = _op_idxs(op)
             if case.get("twin") and len({i >= n for i in ix}) > 1:
                 return False
@@ -776,6 +775,8 @@ def _coq_op(op):
 
 def _coq_opx(op):
     k = op[0]
+    if k == "fit" and op[2] is not None and op[2] < 1 and "expect" not in _flags(op):
+        return "OFitBad"
     if k == "ctor":
         b = {"nx": "BNx", "mod": "BMod", "rule": "BRule"}.get(op[5].lower(), "BOther")      # .lower(): the encoder's part
         return "OCtor %s %s %s %s" % (cbool(op[1] == "gc"), cnat(len(op[2])), cnat(len(op[3])), b)
@@ -803,8 +804,8 @@ def coq_case(case):
     pool = clist([_coq_item(i, it, case, I, NK, EK) for i, it in enumerate(case["items"])])
     ccfg = "{| cc_names := %s; cc_defs := %s; cc_edge := %s |}" % (
         clist([cN(NK(k)) for k in cfg["names"]]), clist([cN(I(d)) for d in cfg["defaults"]]), cN(EK(cfg["edge"])))
-    main = [o for o in case["ops"] if o[0] not in EXTRA_OPS]
-    extra = [o for o in case["ops"] if o[0] in EXTRA_OPS]
+    first_extra = next((i for i, o in enumerate(case["ops"]) if o[0] in EXTRA_OPS), len(case["ops"]))
+    main, extra = case["ops"][:first_extra], case["ops"][first_extra:]      # the trailing part may mix stateless calls and contract ops
     if not extra:
         return "runr %s %s %s %s" % (ccfg, mode, pool, clist([_coq_opx(o) for o in main]))
     xs = []
@@ -812,8 +813,10 @@ def coq_case(case):
         if o[0] == "iso":
             use_nm, use_em, use_def = _ISO_HOW[o[3]]
             xs.append("tbool (iso_call_pool c cdef %s %s %s rpool %s %s)" % (cbool(use_nm), cbool(use_em), cbool(use_def), cnat(o[1]), cnat(o[2])))
+        elif o[0] in CONTRACT_OPS:
+            xs.append("fst (stepx (cc_defs c) %s pool [] (%s))" % (mode, _coq_opx(o)))
         else:
-            xs.append("tlist (tlist tnat) (chunks %s %s)" % (cnat(o[2]), clist([cnat(i) for i in o[1]])))
+            xs.append("batch_dicts_tok %s %s" % (cnat(max(0, o[2])), clist([cnat(i) for i in o[1]])))
     cdef = "{| cc_names := %s; cc_defs := %s; cc_edge := %s |}" % (
         clist([cN(NK(k)) for k in DEF_CFG["names"]]), clist([cN(I(d)) for d in DEF_CFG["defaults"]]), cN(EK(DEF_CFG["edge"])))
     return "(let c := %s in let cdef := %s in let rpool := %s in let pool := map (mk_item c) rpool in L (playx (cc_defs c) %s pool [] %s ++ %s))" % (
@@ -2173,7 +2176,9 @@ def gen_cases(tier, rng):
                 (["element", "charge"], ["*", 0], "order", "nx"), (["element"], ["*", 0], "order", "nx"),
                 (["element", "charge"], ["*"], "order", "nx"), ([], [], "order", "nx"), (["element", "charge"], ["*", 0], "order", "mod"),
                 (["element", "charge"], ["*", 0], "order", "rule"), (["element", "charge"], ["*", 0], "order", "rdkit"),
-                (["element"], ["*", 0], "order", "foo")):
+                (["element"], ["*", 0], "order", "foo"),
+                # round 5: which test comes first -- an unavailable optional backend AND names / defaults of different lengths
+                (["element"], ["*", 0], "order", "mod"), (["element", "charge"], ["*"], "order", "Rule")):
             contract.append(["ctor", which, names, defaults, edge, backend])
     for k, call in enumerate(("short", "pos", "kw", "short", "pos", "kw")):
         cases.append(dict(kind="options/contract", attr_mode="none", invariant=True, items=[dict(x) for x in g2], call=call, shared=k >= 3,
